@@ -13,6 +13,7 @@ import shutil
 import subprocess
 import sys
 import tempfile
+import threading
 import time
 
 VERIF = os.path.dirname(os.path.dirname(os.path.abspath(__file__)))
@@ -316,13 +317,15 @@ class Ctx:
         self.thorough = tier == "thorough"
         self.tmp = tempfile.mkdtemp(prefix=f"moto_{prop}_", dir=os.environ.get("TMPDIR") or None)
         self._n = 0
+        self._lock = threading.Lock()
 
     def n(self, quick, thorough):
         return thorough if self.thorough else quick
 
     def fresh_dir(self):
-        self._n += 1
-        d = os.path.join(self.tmp, f"d{self._n}")
+        with self._lock:  # called from the worker threads of the process-level streams
+            self._n += 1
+            d = os.path.join(self.tmp, f"d{self._n}")
         os.makedirs(d)
         return d
 
